@@ -62,6 +62,13 @@ def gen_cases(ctx):
     base = S.expr_cases(ctx, 4000 if q else 400000, 2500 if q else 250000, 500 if q else 50000, 500 if q else 50000, 300 if q else 30000)
     for _, e in base:
         cases.append((rng.choice(PREFIXES) + e, G.rand_doc(rng, 3)))
+    # step-0 slices wherever a slice can stand (the error points at that slice, also when an enclosing call is being evaluated)
+    for _ in range(300 if q else 6000):
+        sl = rng.choice(["[::0]", "[1:2:0]", "[ : : 0 ]", "[-1::0]"])
+        t = rng.choice(["map(&@%s, a)", "sort_by(a, &@%s)", "max_by(a, &%s)", "a[*]%s", "a[*].b%s", "a%s.b", "length(a%s)", "[a%s, b]", "{k: a%s}",
+                        "a[?@%s]", "map(&to_array(@)%s, a)", "sort_by(a, &b%s[0])", "not_null(a%s)", "a | @%s", "map(&[@, @%s], a)",
+                        "abs(sum(a[*].b%s))", "min_by(a, &abs(b)%s)", "a && b%s", "a || map(&@%s, b)"])
+        cases.append((rng.choice(PREFIXES) + t % sl, "{ s61 [ [ u1 ] { s62 [ u2 ] } u3 ] s62 [ [ ] ] }"))
     # long expressions: offsets, lines and columns beyond 255 and beyond 65535 (a narrowed counter would wrap)
     for k, (_, e) in enumerate(base[:60 if q else 2000]):
         pad = rng.choice(["'" + "x" * 300 + "' && ", "'" + "é" * 200 + "'\n&& ", "\n" * 300 + "'a' && ", " " * 70000 if k % 20 == 0 else " " * 700,
